@@ -3,16 +3,17 @@ import RJson.Gen.Facts
 # The constants the hand models copy from the hand-written Go are the constants of the current source
 
 `gofacts` lists, for every function of the hand-written Go (internal/fp, simple_readers.go, token.go,
-machine_helpers.go, complex_readers.go, decode.go, rjson.go), its integer / float / character literals (sorted, so that
-reordering statements does not matter; strings such as error texts are left out). The hand models in `Model/*.lean`
+machine_helpers.go, complex_readers.go, decode.go, rjson.go), its integer / float / character literals and, behind `;;`, its operators and jump statements (`<`, `>=`, `+=`,
+`break`, `return`, …; unary ones prefixed with `u`) — each list sorted, so that reordering statements does not matter; strings
+such as error texts are left out. The hand models in `Model/*.lean`
 were written against exactly these constants — `310` / `330` in `floatBits`, `22` and `15` in `atof64exact`, `0x1f` in
-the string readers, the digit bounds of the integer readers, ... A changed, added or removed literal fails the
+the string readers, the digit bounds of the integer readers, ... A changed, added or removed literal or operator (a `<` that became `<=`, a dropped `break`) fails the
 comparison below on the next run, before any input is tried; named constants and tables are regenerated separately
 (`Gen/Tables.lean`).
 -/
 namespace RJson.Literals
 
 theorem literalsSimpleReaders_expected : Gen.Facts.literalsSimpleReaders =
-    [("ReadBool", ""), ("ReadFloat64", "0"), ("ReadInt", "0 0 32 64"), ("ReadInt32", "0 0"), ("ReadInt64", "'-' 0 0 0 0 0 1 63"), ("ReadNull", ""), ("ReadString", "'\"' '\"' '\\\\' 0 0x1f 1"), ("ReadStringBytes", "'\"' '\"' '\\\\' 0x1f 1"), ("ReadUint", "0 0 32 64"), ("ReadUint32", "0"), ("ReadUint64", "'.' '.' '0' '0' '0' '0' '9' '9' 'E' 'E' 'e' 'e' 0 0 0 0 0 0 0 0 0 0 1 1 1 10 10 10 18 18 64"), ("readBoolCompat", "0 0"), ("readFloat64Compat", "0 0 0 0"), ("readInt32Compat", "0 0 0 0"), ("readInt64Compat", "0 0 0 0"), ("readIntCompat", "0 0 0 0"), ("readNullCompat", "0 0"), ("readStringBytesCompat", "0 0"), ("readStringCompat", "0 0"), ("readUint32Compat", "0 0 0 0"), ("readUint64Compat", "0 0 0 0"), ("readUintCompat", "0 0 0 0")] := by decide +kernel
+    [("ReadBool", " ;; return"), ("ReadFloat64", "0 ;; + == return return"), ("ReadInt", "0 0 32 64 ;; return return return"), ("ReadInt32", "0 0 ;; != < > return return return ||"), ("ReadInt64", "'-' 0 0 0 0 0 1 63 ;; != ++ += << == == == > >= return return return return return return return u- ||"), ("ReadNull", " ;; return"), ("ReadString", "'\"' '\"' '\\\\' 0 0x1f 1 ;; != != != != + ++ ++ += += < <= == return return return return return ||"), ("ReadStringBytes", "'\"' '\"' '\\\\' 0x1f 1 ;; != + ++ ++ += += < <= == return return return return return ||"), ("ReadUint", "0 0 32 64 ;; return return return"), ("ReadUint32", "0 ;; && == > return"), ("ReadUint64", "'.' '.' '0' '0' '0' '0' '9' '9' 'E' 'E' 'e' 'e' 0 0 0 0 0 0 0 0 0 0 1 1 1 10 10 10 18 18 64 ;; * *= + ++ ++ ++ += += - - - - - - / < < < < < << == == == == == == == > > > break break return return return return return return return return return return || || ||"), ("readBoolCompat", "0 0 ;; != return return return u!"), ("readFloat64Compat", "0 0 0 0 ;; != return return return u! u&"), ("readInt32Compat", "0 0 0 0 ;; != return return return u! u&"), ("readInt64Compat", "0 0 0 0 ;; != return return return u! u&"), ("readIntCompat", "0 0 0 0 ;; != return return return u! u&"), ("readNullCompat", "0 0 ;; != != return return return"), ("readStringBytesCompat", "0 0 ;; != return return return u! u&"), ("readStringCompat", "0 0 ;; != return return return u! u&"), ("readUint32Compat", "0 0 0 0 ;; != return return return u! u&"), ("readUint64Compat", "0 0 0 0 ;; != return return return u! u&"), ("readUintCompat", "0 0 0 0 ;; != return return return u! u&")] := by decide +kernel
 
 end RJson.Literals
